@@ -478,8 +478,10 @@ struct Report {
 impl Report {
     fn violation(&mut self, check: &str, case: usize, detail: &str) {
         self.violations += 1;
+        let first_of_its_check = !self.violations_by_check.contains_key(check);
         *self.violations_by_check.entry(check.to_string()).or_default() += 1;
-        if self.violations <= MAX_PRINTED_VIOLATIONS {
+        // always print the first violation of every check (its failing input identifies the cause)
+        if self.violations <= MAX_PRINTED_VIOLATIONS || first_of_its_check {
             println!("CODEC-VIOLATION {check} seed={} case={case}: {detail}", self.seed);
         }
     }
